@@ -229,6 +229,16 @@ root("spaceref",
      [q("S", "f", 0), q("S", "f2", 0), q("S", "g", 0)])
 
 
+# 12. a model-level reference reached by attribute path through a space, then shadowed / un-shadowed there
+root("shadowattr",
+     {"refs": {"w": 1},
+      "spaces": {"O": {"cells": {"c": L + "w + x"}},
+                 "S": {"refs": {"o": obj("O")}, "cells": {"g": L + "o.w + x", "f": L + "g(x) + 1"}}}},
+     [q("S", "g", 0), q("S", "f", 0), q("O", "c", 0)],
+     [set_ref("O", "w", 5), del_ref("O", "w"), set_ref("", "w", 2), del_ref("", "w"), set_ref("S", "w", 7),
+      del_ref("S", "w"), set_cached("S", "g", False), set_cached("S", "g", True)],
+     [q("S", "f", 0), q("S", "g", 0)])
+
 # 11. ItemSpaces of a sub space deriving its cells from a base: edits of the base definitions
 root("inheritem",
      {"spaces": {"Base": {"refs": {"r": 1}, "cells": {"foo": "lambda: tick() + r", "bar": L + "foo() + x"}},
